@@ -85,7 +85,9 @@ func withBase(w *Work) func() {
 		b := env.NewEnv()
 		st, _ := parser.ParseSrc(baseLibSrc)
 		vm.Run(b, nil, st)
-		t := b.NewEnv()
+		// three scopes deep, with a variable in the outermost one: a copy of the whole chain has an outermost scope of its own
+		b.Define("troot", int64(5))
+		t := b.NewEnv().NewEnv()
 		// a handful of bindings of the template's own, some of them removed again (tables and whatever is kept
 		// beside them then have spare room and a history)
 		for k := 0; k < 5; k++ {
@@ -290,6 +292,11 @@ var templates = []func(u string) string{
 		// a variable the host bound by ADDRESS (an addressable value): every environment - a fresh one, a copy of a
 		// prepared template - has a cell of its own behind the name
 		return "rec(taddr)\ntp" + u + " = &taddr\n*tp" + u + " = base + 3\nrec(taddr)\nrec(*tp" + u + ")"
+	},
+	func(u string) string {
+		// a variable that lives in the OUTERMOST scope of the environment's chain (two scopes out when the environment is a
+		// copy of a prepared template): assigned and read back
+		return "rec(troot)\ntroot = base + 4\nrec(troot)\nfunc tf" + u + "() { troot = troot + 1; return troot }\nrec(tf" + u + "())"
 	},
 	func(u string) string {
 		// the same through a failed MEMBER lookup of a module
@@ -608,6 +615,7 @@ func mkEnv(i int, out *runOut, mu *sync.Mutex) *env.Env {
 		vm.Run(e, nil, baseLib())
 	}
 	if sharedTemplate == nil {
+		e.Define("troot", int64(5))
 		cell := reflect.New(reflect.TypeOf(int64(0))).Elem()
 		cell.SetInt(7)
 		e.DefineValue("taddr", cell)
